@@ -862,15 +862,29 @@ example :
     (selectCols t [("wavelength", 1), ("QE", 0)]).lookup "wavelength" = some [some 400, some 500] ∧
     (selectColsPositional t [("wavelength", 1), ("QE", 0)]).lookup "wavelength" = some [some 90, some 80] := by decide
 
-/-! ### tables regenerated from today's source -/
+/-! ### tables observed on today's code -/
 
-/-- the separators tried by `load_image`, in the code's order, are the model's -/
+/-- of the candidate separator characters offered to them on tiny files, `load_image` and `load_table` accept
+exactly the model's five (as sets: the order in which the code tries them has no observable effect on valid files) -/
 theorem separators_as_in_code :
-    PyxelModel.Generated.C20.imageSeparators = separators ∧
-    PyxelModel.Generated.C20.tableSeparators = separators := by decide
+    (PyxelModel.Generated.C20.imageSeparators.all (separators.contains ·) &&
+     separators.all (PyxelModel.Generated.C20.imageSeparators.contains ·) &&
+     PyxelModel.Generated.C20.tableSeparators.all (separators.contains ·) &&
+     separators.all (PyxelModel.Generated.C20.tableSeparators.contains ·)) = true := by decide
 
-/-- `class Alignment` has exactly the five keywords of the model -/
+/-- of the candidate keywords, `fit_into_array` accepts exactly the five of the model -/
 theorem alignments_as_in_code :
-    PyxelModel.Generated.C20.alignments = Align.all.map Align.name := by decide
+    (PyxelModel.Generated.C20.alignments.all ((Align.all.map Align.name).contains ·) &&
+     (Align.all.map Align.name).all (PyxelModel.Generated.C20.alignments.contains ·)) = true := by decide
+
+def alignOfName (n : String) : Option Align := Align.all.find? (fun a => a.name == n)
+
+/-- the offset each keyword produced on the probe shapes (inputs smaller, larger, odd and even slack, equal) is
+`relPos` of the model -/
+theorem align_offsets_as_observed :
+    PyxelModel.Generated.C20.alignOffsets.all (fun e =>
+      match alignOfName e.1 with
+      | some a => relPos e.2.1.1 e.2.1.2 e.2.2.1.1 e.2.2.1.2 a == e.2.2.2
+      | none => false) = true ∧ PyxelModel.Generated.C20.alignOffsets.length = 25 := by decide
 
 end PyxelModel.C20
